@@ -67,22 +67,22 @@ func refBearerRelation(s bSpec, r bReq) (issuer, cnr, usr bool) {
 
 func genBearer(t *rapid.T, r bReq, cur uint64) bSpec {
 	s := bSpec{Scheme: genScheme().Draw(t, "scheme")}
-	pick := func(label string, match int, lo int) int {
+	pick := func(label string, match, lo, hi int) int {
 		if rapid.IntRange(0, 9).Draw(t, label+"Match") < 7 {
 			if lo < 0 && rapid.Bool().Draw(t, label+"Any") {
 				return -1
 			}
 			return match
 		}
-		return rapid.IntRange(lo, map[string]int{"cnr": 1}[label]*1+map[bool]int{true: 0, false: nKeys - 1}[label == "cnr"]).Draw(t, label)
+		return rapid.IntRange(lo, hi).Draw(t, label)
 	}
-	s.Issuer = pick("issuer", r.Owner, 0)
 	sender := r.Sender
 	if r.Session >= 0 {
 		sender = r.Session
 	}
-	s.Target = pick("target", sender, -1)
-	s.Cnr = pick("cnr", r.Cnr, -1)
+	s.Issuer = pick("issuer", r.Owner, 0, nKeys-1)
+	s.Target = pick("target", sender, -1, nKeys-1)
+	s.Cnr = pick("cnr", r.Cnr, -1, 1)
 	n := rapid.IntRange(0, 2).Draw(t, "records")
 	for i := 0; i < n; i++ {
 		s.Records = append(s.Records, bRecord{
